@@ -975,7 +975,7 @@ def _work(job):
             st["outcomes"].add(obs)
             if nt:
                 st["nontriv"] += 1
-            if len(st["samples"]) < 1 and st["exec"] % 53 == 1:
+            if len(st["samples"]) < 1 and schedule and st["exec"] % 53 == 7:
                 st["samples"].append({"world": world, "schedule": schedule, "variant": variant,
                                       "violated": [key for key, _d in viol], "outcome": c.outcome})
         if len(schedule) < 3:
@@ -1022,8 +1022,8 @@ def run_driver(run, world, kmax, cancel_by_k, seed):
         nonmin += st["non_minimal"]
         for fp, (desc, rep) in st["viol"].items():
             run.violation(fp, desc, rep)
-        if len(d.samples) < 3:
-            d.samples.extend(st["samples"])
+        d.samples.extend(st["samples"])
+    d.samples = sorted(d.samples, key=lambda x: -len(x["schedule"]))[:3]  # largest schedules first
     d.states = len(outcomes)
     d.outcomes = len(outcomes)
     d.extra["violations_explained_by_a_smaller_schedule"] = nonmin
